@@ -112,6 +112,9 @@ ObsResp(e) ==
 ObsResult(e) ==
   LET acc == e.err = "nil" IN
   IF e.err = "panic" THEN Fail("C18/panic/handshake")
+  \* the complete response was delivered, the connection stayed open, and the handshake call
+  \* neither accepted nor rejected within the budget (bounded-time observation)
+  ELSE IF e.err = "stalled" THEN Fail("C18/no-result/stalled")
   ELSE IF ~(mstage = "resp" \/ (mstage = "begun" /\ mexp = "rej"))
      THEN Fail("C18/harness/result-out-of-order")
   ELSE IF e.cbs # 1 THEN Fail("C18/callback-count")
